@@ -39,6 +39,7 @@ def params(draw, tier):
     p["vanish"] = draw(st.sampled_from([False, False, True]))
     # time unit: the same movie with its time stamps in seconds instead of hours or days (junction speeds down to 1e-12)
     p["tunit"] = draw(st.sampled_from([1.0, 1.0, 1e4, 1e7]))
+    p["blimit"] = draw(st.sampled_from([None, None, None, 0.68, 0.75, 0.85]))
     return p
 
 
@@ -130,7 +131,10 @@ def check_case(p, ctx):
     # right-hand sides
     zero_speed_frames = set()
     for t in range(n):
-        if p["lab_seeds"][-1] % 2:
+        if p.get("blimit"):
+            # an opening-angle limit flags junctions; those that keep their equations keep their own velocity too
+            call(fsys.build_force_matrix, when=t, angle_limit=float(p["blimit"]) * np.pi)
+        elif p["lab_seeds"][-1] % 2:
             call(fsys.build_force_matrix, when=t, angle_limit=np.inf)
         else:
             call(fsys.build_force_matrix, when=t)          # documented default limit (pi): excludes nothing here
